@@ -89,6 +89,35 @@ def r1_emitters(ctx) -> None:
                                              f"field `{tg.attr}` of a serial model is assigned after construction: the value bypasses validation", n)
 
 
+def r1_encoders_build(ctx) -> None:
+    """an encoder of the data model (`_to_serial`, `_to_serial_root`) returns a freshly validated document: it never assigns into an
+    object after construction (a patched model bypasses validation, and a patched *shared* model is written with another node's data)"""
+    prog = ctx.program
+    n = 0
+    for mn in ("hugr.ops", "hugr.tys", "hugr.val", "hugr.ext", "hugr.hugr.base"):
+        m = prog.module(mn)
+        for c in m.classes.values():
+            for fname, fn in c.methods.items():
+                if fname not in ("_to_serial", "_to_serial_root"):
+                    continue
+                n += 1
+                selfn = fn.args.args[0].arg if fn.args.args else "self"
+                cf = ctx.canon.fn(fn, m, c)
+                bad = [x for x in ast.walk(cf) if isinstance(x, (ast.Attribute, ast.Subscript)) and isinstance(x.ctx, (ast.Store, ast.Del))]
+                # a local container being filled (d = {}; d[k] = v) is construction, not patching: only attribute stores and stores
+                # through something that is not a local display count
+                local_displays = {u(s_.targets[0]) for s_ in ast.walk(cf) if isinstance(s_, ast.Assign) and isinstance(s_.targets[0], ast.Name)
+                                  and isinstance(s_.value, (ast.Dict, ast.List, ast.Set, ast.ListComp, ast.DictComp))}
+                bad = [x for x in bad if not (isinstance(x, ast.Subscript) and u(x.value) in local_displays)]
+                if bad:
+                    ctx.fail("C03.R1", f"{c.qualname}.{fname}: builds, never patches", m.path, getattr(bad[0], "lineno", fn.lineno),
+                             f"`{u(bad[0])} = ..` inside an encoder: the document is assigned into after construction (no validation; if the object is "
+                             "kept between calls every holder of it is written with the last caller's data)", bad[0])
+                else:
+                    ctx.ok("C03.R1", f"{c.qualname}.{fname}: builds, never patches", "no store into an existing object")
+    ctx.stats["C03.R1 encoders inspected"] = n
+
+
 def _is_serial_obj(e, fn, serial_classes) -> bool:
     """receiver is `self` inside a serial model, a name bound to a serial-model constructor / _to_serial(), or <x>.root of a loop element"""
     s = u(e)
@@ -446,6 +475,7 @@ def run(ctx) -> None:
     ctx.rule("C03.R6", "builders wire static edges to the static input port (call: after the value inputs; load/load_function: port 0)", floor=3)
     ctx.rule("C03.R7", "one-shot iterators feeding the document are consumed once", floor=1)
     r1_emitters(ctx)
+    r1_encoders_build(ctx)
     r3_one_index_space(ctx, rule="C03.R2", rule5="C03.R5", with_metadata=False)
     r3_r4_order(ctx)
     r5_order_offset(ctx)
